@@ -108,6 +108,12 @@ func init() {
 		"path.Dir":           pathDir,
 		"path/filepath.Dir":  pathDir,
 		"path/filepath.Ext":  pathExt,
+		"path/filepath.IsAbs": func(c *CallCtx) (Value, bool) {
+			return c.e.ts.StrPred(OStrPrefixOf, c.e.ts.StrC("/"), c.args[0].(*Term)), true
+		},
+		"path.IsAbs": func(c *CallCtx) (Value, bool) {
+			return c.e.ts.StrPred(OStrPrefixOf, c.e.ts.StrC("/"), c.args[0].(*Term)), true
+		},
 		"io.WriteString": ioWriteString,
 		"bytes.IndexByte": bytesIndexByte,
 		"github.com/logrusorgru/aurora.Cyan":  auroraWrap,
@@ -1045,25 +1051,45 @@ func timeNanosecond(c *CallCtx) (Value, bool) {
 	return c.e.ts.Fresh("opaque:ns", BVSort(64)), true
 }
 
-// timeSleep: a polling pause. The thread is descheduled until another thread makes progress.
+// timeSleep: a polling pause. The thread is descheduled until another thread
+// makes progress; when no other thread can run it simply continues (the pause
+// elapses). A polling pass that neither made nor saw any progress while nothing
+// else can run is reported as a livelock.
 func timeSleep(c *CallCtx) (Value, bool) {
 	e, st, fr := c.e, c.st, c.fr
 	if fr.Yielded {
 		return nil, true
 	}
-	fr.Yielded = true
-	snap := st.progress
-	others := false
-	for i, t := range st.threads {
-		if i != st.cur && !t.Done {
-			others = true
+	th := st.thread()
+	me := st.cur
+	if !otherRunnable(e, st, me) {
+		if th.SleepSnap == st.progress+1 {
+			panic(pathEnd{kind: "deadlock", msg: "livelock: polling loop repeats without progress at " + e.pos(e.curInstr)})
 		}
-	}
-	if !others {
+		th.SleepSnap = st.progress + 1
 		return nil, true
 	}
-	e.block(st, "time.Sleep (polling) at "+e.pos(e.curInstr), func(e *Engine, s *State) bool { return s.progress > snap })
+	fr.Yielded = true
+	snap := st.progress
+	th.SleepSnap = snap + 1
+	th.Sleeping = true
+	e.block(st, "time.Sleep (polling) at "+e.pos(e.curInstr), func(e *Engine, s *State) bool {
+		return s.progress > snap || !otherRunnable(e, s, me)
+	})
 	return nil, false
+}
+
+// otherRunnable reports whether some thread other than me (sleepers excluded) can run.
+func otherRunnable(e *Engine, st *State, me int) bool {
+	for i, t := range st.threads {
+		if i == me || t.Done || t.Sleeping {
+			continue
+		}
+		if t.Wait == nil || t.Wait(e, st) {
+			return true
+		}
+	}
+	return false
 }
 
 // ---- bytes.Buffer: ghost string in cell 0 ----
